@@ -1,8 +1,7 @@
 (* P_C10.v — property C10: theorems only. What the structural invariant means (a passing [check_inv], evaluated on
    the state after every modification of every generated history, on every stage snapshot of every pipeline run
-   and on every dumped local-search candidate). That the invariant holds after ALL histories is not proved
-   at schedule level (no functional model of schedule/modifications.rs); what is proved for all inputs:
-   the tour edits (C12), the rotation-cycle operations (C15, P_C15.v), the formation list operations (C13). *)
+   and on every dumped local-search candidate). The theorems at the end are about the functional model of
+   schedule/modifications.rs (Schedule.v) and hold after ALL histories of public modifications. *)
 From RS Require Import Base Network NetSpec Tour SchedObs InvStmts InvFacts TransSpec TransStmts TransFacts.
 
 (* every vehicle tour is a path from a start depot to an end depot over activities only, consecutive nodes
@@ -41,3 +40,11 @@ Print Assumptions C10_cycles_add.
 Theorem C10_cycles_remove : stmt_remove_inv.
 Proof. exact remove_inv. Qed.
 Print Assumptions C10_cycles_remove.
+
+(** For ALL finite histories of public modifications of the model (Schedule.v, compared line by line with the
+    implementation on every generated history): formation and track limits hold in every reachable schedule.
+    (Depot limits are not an invariant of arbitrary histories: known finding F1.) *)
+From RS Require Import Transition Schedule SchedInv SchedStruct SchedFormLimFacts.
+Theorem C10_reachable_formation_and_track_limits : forall nw, stmt_reachable_form_limits nw.
+Proof. exact reachable_form_limits. Qed.
+Print Assumptions C10_reachable_formation_and_track_limits.
